@@ -23,6 +23,11 @@ CORPUS = [
     T('c05-weibull-zero-last', "                (\n                    torch.zeros_like(invariant),\n                    torch.pow(-torch.log(1.0 - quantile), 1.0 / parameter),\n                ),",
       "                (\n                    torch.pow(-torch.log(1.0 - quantile), 1.0 / parameter),\n                    torch.zeros_like(invariant),\n                ),", expect=[('C05.N', 'zero-rate-block-aligned')]),
     T('c05-weibull-quantile', "            return torch.pow(-torch.log(1.0 - quantile), 1.0 / parameter)", "            return torch.pow(-torch.log(quantile), 1.0 / parameter)", expect=[('C05.N', 'WeibullSiteModel.inverse_cdf::quantile-function')]),
+    T('c05-inplace-on-alias', "        self._rates = rates / (rates * self._probabilities).sum(-1, keepdim=True)\n        if self._mu", "        self._normalised = rates / (rates * self._probabilities).sum(-1, keepdim=True)\n        self._rates = self._normalised\n        if self._mu",
+      expect=[('C05.A', 'in-place-update-of-self._rates')]),
+    T('c05-inplace-conditional-def', "        self._rates = rates / (rates * self._probabilities).sum(-1, keepdim=True)\n        if self._mu", "        if self._rates is None:\n            self._rates = rates / (rates * self._probabilities).sum(-1, keepdim=True)\n        if self._mu",
+      expect=[('C05.A', 'in-place-update-of-self._rates')]),
+    T('c05-benign-out-of-place-mu', "            self._rates *= self._mu.tensor\n\n    def rates(self) -> torch.Tensor:\n        if self.needs_update:\n            self.update_rates(", "            self._rates = self._rates * self._mu.tensor\n\n    def rates(self) -> torch.Tensor:\n        if self.needs_update:\n            self.update_rates(", benign=True),
     T('c05-benign-mean-form', "        self._rates = rates / (rates * self._probabilities).sum(-1, keepdim=True)", "        self._rates = rates / (self._probabilities * rates).sum(-1, keepdim=True)", benign=True),
 ]
 for m in CORPUS:
